@@ -1,6 +1,8 @@
 #ifndef OCCA_INTERNAL_CORE_DEVICE_HEADER
 #define OCCA_INTERNAL_CORE_DEVICE_HEADER
 
+#include <atomic>
+
 #include <occa/core/device.hpp>
 #include <occa/types/json.hpp>
 #include <occa/internal/utils/gc.hpp>
@@ -22,8 +24,10 @@ namespace occa {
 
     stream currentStream;
 
-    udim_t bytesAllocated;
-    udim_t maxBytesAllocated;
+    // Devices can be shared between threads: the counters are updated
+    //   by every thread that allocates or frees memory
+    std::atomic<udim_t> bytesAllocated;
+    std::atomic<udim_t> maxBytesAllocated;
 
     cachedKernelMap cachedKernels;
 
@@ -57,6 +61,8 @@ namespace occa {
 
     void addStreamTagRef(modeStreamTag_t *streamTag);
     void removeStreamTagRef(modeStreamTag_t *streamTag);
+
+    void addBytesAllocated(const udim_t bytes);
 
     void finish() const;
     void finishAll() const;
